@@ -4,6 +4,8 @@
 // symgo) the bodies are placeholders: the engine intercepts every call by name.
 package verif
 
+import "context"
+
 func Symbolic() bool                  { return true }
 func Bool() bool                      { return false }
 func Byte() byte                      { return 0 }
@@ -27,3 +29,9 @@ func Preempt(on bool)                 {}
 func PermuteMaps(on bool)             {}
 func Panics(f func()) bool            { return false }
 func SameFunc(a, b interface{}) bool { return false }
+
+// NewContext returns a cancellable context (with a deadline if withDeadline)
+// that the harness controls with Cancel / Expire.
+func NewContext(withDeadline bool) context.Context { return nil }
+func Cancel(ctx context.Context)                   {}
+func Expire(ctx context.Context)                   {}
